@@ -75,6 +75,23 @@ def subsList : Nat → List Stmt → List (Nat × Nat)
   | d, s :: r => subs d s ++ subsList d r
 end
 
+mutual
+/-- `(iterations, start step, duration)` of every subcircuit block when `s` starts at step `t`, in
+program order (for a subcircuit block inside a loop: its slot in the first iteration). -/
+def slots : Nat → Stmt → List (Nat × Nat × Nat)
+  | _, .gate _ => []
+  | t, .loop _ b => slots t b
+  | t, .block par sub it body =>
+      (if sub then [(it, t, if par then durMax body else durSum body)] else []) ++
+      (if par then slotsPar t body else slotsSeq t body)
+def slotsSeq : Nat → List Stmt → List (Nat × Nat × Nat)
+  | _, [] => []
+  | t, s :: r => slots t s ++ slotsSeq (t + dur s) r
+def slotsPar : Nat → List Stmt → List (Nat × Nat × Nat)
+  | _, [] => []
+  | t, s :: r => slots t s ++ slotsPar t r
+end
+
 /-! ### the normal form -/
 
 def isGate : Stmt → Bool
